@@ -705,16 +705,47 @@ func (c *evalCtx) applySpec(sf *SpecFunc, args []ast.Expr) SV {
 	sc.lookup = nil
 	sc.depth = c.depth + 1
 	sc.what = "spec " + sf.Name
+	touch0 := enc.heapTouch
+	var res SV
 	if sf.Ret == "bool" {
-		return SV{t: types.Typ[types.Bool], term: sc.evalBoolText(sf.Body)}
+		res = SV{t: types.Typ[types.Bool], term: sc.evalBoolText(sf.Body)}
+	} else {
+		e, err := parser.ParseExpr(sf.Body)
+		if err != nil {
+			cfail("spec %s: %v", sf.Name, err)
+		}
+		rt := sc.resolveType(sf.Ret)
+		v := sc.materialise(sc.coerce(sc.eval(e), rt))
+		res = SV{t: rt, term: v.term}
 	}
-	e, err := parser.ParseExpr(sf.Body)
-	if err != nil {
-		cfail("spec %s: %v", sf.Name, err)
+	// Heap-independent specs over closed arguments are kept opaque: the application is an
+	// uninterpreted term with its defining equation asserted for exactly these arguments.
+	// (Congruence then relates equal arguments without unfolding the body.)
+	if enc.heapTouch == touch0 && len(vals) > 0 && len(res.term) > 40 {
+		closed := true
+		var ts, ss []string
+		for _, v := range vals {
+			if strings.Contains(v.term, "q!") {
+				closed = false
+			}
+			ts = append(ts, v.term)
+			ss = append(ss, enc.R.sortOf(v.t))
+		}
+		if closed && !strings.Contains(res.term, "q!") {
+			name := "spec!" + sf.Name
+			enc.R.extra(fmt.Sprintf("(declare-fun %s (%s) %s)", name, strings.Join(ss, " "), enc.R.sortOf(res.t)))
+			app := fmt.Sprintf("(%s %s)", name, strings.Join(ts, " "))
+			if enc.specApps == nil {
+				enc.specApps = map[string]bool{}
+			}
+			if !enc.specApps[app] {
+				enc.specApps[app] = true
+				enc.decls = append(enc.decls, fmt.Sprintf("(assert (= %s %s))", app, res.term))
+			}
+			return SV{t: res.t, term: app}
+		}
 	}
-	rt := sc.resolveType(sf.Ret)
-	v := sc.materialise(sc.coerce(sc.eval(e), rt))
-	return SV{t: rt, term: v.term}
+	return res
 }
 
 // useRawSpec registers the SMT define-fun of a raw spec function (and the ones it uses).
